@@ -360,3 +360,163 @@ Corollary downscoped_within_grant pm m cl point sec ts gs req ui k v :
   In (k, v) (release_tok pm m cl point sec (Some ts) gs req ui) ->
   In (k, v) (release_tok pm m cl point sec None gs req ui).
 Proof. intros Hn Hs. rewrite no_token_scope_is_grant_scope. now apply narrower_token_never_more. Qed.
+
+(* ================================================================================================================
+   ID Tokens minted by the authorization endpoint: the release point is a function of the response type.  Only for
+   response type `id_token` alone do the client's USERINFO entries count as well; for every other response type the
+   id_token rules alone decide what the ID Token of the authorization response shows. *)
+
+Lemma id_token_alone_spec rt :
+  id_token_alone rt = true <-> rt <> [] /\ forall w, In w rt -> w = W_id_token.
+Proof.
+  unfold id_token_alone. destruct rt as [|a r].
+  - split; [discriminate|intros [H _]; congruence].
+  - rewrite forallb_forall. split.
+    + intros H. split; [discriminate|]. intros w Hw. now apply str_eqb_eq, H.
+    + intros [_ H] w Hw. apply str_eqb_eq. auto.
+Qed.
+(* any other word in the response type (code, token) switches the secondary release point off *)
+Lemma other_word_not_alone rt w : In w rt -> w <> W_id_token -> id_token_alone rt = false.
+Proof.
+  intros Hin Hw. destruct (id_token_alone rt) eqn:E; auto.
+  apply id_token_alone_spec in E as [_ E]. elim Hw. auto.
+Qed.
+Theorem idt_release_point_alone rt : id_token_alone rt = true -> idt_release_point rt = (W_id_token, W_userinfo).
+Proof. unfold idt_release_point. now intros ->. Qed.
+Theorem idt_release_point_not_alone rt : id_token_alone rt = false -> idt_release_point rt = idt_release_point_token_endpoint.
+Proof. unfold idt_release_point. now intros ->. Qed.
+
+(* without a secondary release point the client's entries for the release point itself are all that counts *)
+Lemma policy_primary m cl point : policy m cl point [] = (by_scope_rule m cl point, always_rule m cl point).
+Proof.
+  unfold policy, by_scope_rule, always_rule, client_claims, by_scope_at, always_at.
+  destruct cl as [c|]; auto. destruct (m_per_client m); auto. rewrite app_nil_r.
+  destruct (c_by_scope c) as [[|e d]|]; auto.
+Qed.
+(* with one, the always-add claims of both points count *)
+Lemma client_claims_always m c point sec k :
+  In k (snd (client_claims m c point sec)) -> In k (always_at c point) \/ In k (always_at c sec).
+Proof.
+  unfold client_claims, always_at. cbn [snd]. intros H. apply in_app_or in H as [H|H]; auto.
+  destruct sec; [destruct H|auto].
+Qed.
+
+(* the sources of the restriction when there is no secondary release point, with the scope -> claims switch made explicit *)
+Theorem restriction_sources_primary pm m cl point scopes req k :
+  In k (keys (get_claims pm m cl point [] scopes req)) ->
+  In k (keys m.(m_base))
+  \/ ((cl = None \/ m.(m_per_client) = false) /\ In k (always_keys m.(m_always)))
+  \/ (exists c, cl = Some c /\ m.(m_per_client) = true /\ In k (always_at c point))
+  \/ (by_scope_rule m cl point = true /\ scope_claim pm cl scopes k)
+  \/ In k (keys req).
+Proof.
+  rewrite get_claims_steps, policy_primary. cbn [fst snd]. intros H.
+  apply update_keys in H as [H|H]; [|auto 6].
+  assert (Ha : In k (keys (with_always m (always_rule m cl point))) ->
+               In k (keys (m_base m)) \/ ((cl = None \/ m_per_client m = false) /\ In k (always_keys (m_always m)))
+               \/ (exists c, cl = Some c /\ m_per_client m = true /\ In k (always_at c point))).
+  { unfold always_rule. intros Hk.
+    assert (Hw : forall a, In k (keys (with_always m a)) -> In k (keys (m_base m)) \/ In k (always_keys a)).
+    { intros [[l|d]|] Hx; cbn in *; auto; apply update_keys in Hx as [Hx|Hx]; auto. rewrite map_none_keys in Hx. auto. }
+    destruct cl as [c|].
+    - destruct (m_per_client m) eqn:Ep.
+      + apply Hw in Hk as [Hk|Hk]; auto. cbn in Hk. right; right. exists c. auto.
+      + apply Hw in Hk as [Hk|Hk]; auto.
+    - apply Hw in Hk as [Hk|Hk]; auto. }
+  destruct (by_scope_rule m cl point) eqn:Eb.
+  - apply update_keys in H as [H|H].
+    + apply Ha in H as [H|[H|H]]; auto 6.
+    + right; right; right; left. split; auto.
+  - apply Ha in H as [H|[H|H]]; auto 6.
+Qed.
+
+(* The ID Token of an authorization response whose response type is not `id_token` alone (code id_token, id_token token,
+   code id_token token) is bounded by the id_token rules: base claims of the ID Token handler, its always-add claims or -
+   per-client claims on - the client's always-add claims FOR id_token, the claims of the token's scopes if the id_token
+   scope switch is on, the claims request for id_token.  Nothing the client configured for userinfo is a source. *)
+Theorem authz_idt_bound_id_token_rules pm m cl rt ts gs req ui k v :
+  id_token_alone rt = false ->
+  In (k, v) (release_authz_idt pm m cl rt (Some ts) gs req ui) ->
+  (In k (keys m.(m_base))
+   \/ ((cl = None \/ m.(m_per_client) = false) /\ In k (always_keys m.(m_always)))
+   \/ (exists c, cl = Some c /\ m.(m_per_client) = true /\ In k (always_at c W_id_token))
+   \/ (by_scope_rule m cl W_id_token = true /\ scope_claim pm cl ts k /\
+       exists s, In s ts /\ In s (match (match cl with Some c => c.(c_allowed_scopes) | None => None end) with
+                                  | Some a => a | None => List.map fst pm end))
+   \/ In k (keys req))
+  /\ assoc k ui = Some v /\ v <> VNone.
+Proof.
+  intros Hrt. unfold release_authz_idt. rewrite (idt_release_point_not_alone _ Hrt). cbn [fst snd idt_release_point_token_endpoint].
+  unfold release_tok, get_claims_tok, effective_scopes. intros H.
+  apply released_bound in H as (spec & Hin & Hu & _ & Hn). split; [|auto].
+  assert (Hk : In k (keys (get_claims pm m cl W_id_token [] ts req))).
+  { unfold keys. apply in_map_iff. exists (k, spec). auto. }
+  apply restriction_sources_primary in Hk as [Hk|[Hk|[Hk|[[Hb Hk]|Hk]]]]; auto 6.
+  right; right; right; left. split; auto. split; auto. unfold scope_claim in Hk.
+  now apply scope_claim_from_allowed_scope in Hk.
+Qed.
+
+(* frame: two client configurations that agree on their id_token entries (and on the scope policy) get the same ID Token
+   from the authorization endpoint for every response type other than `id_token` alone - whatever they say about
+   userinfo, introspection, access_token *)
+Lemma get_claims_primary_frame pm m c1 c2 point scopes req :
+  by_scope_at c1 point = by_scope_at c2 point -> always_at c1 point = always_at c2 point ->
+  c_allowed_scopes c1 = c_allowed_scopes c2 -> c_scope_map c1 = c_scope_map c2 ->
+  get_claims pm m (Some c1) point [] scopes req = get_claims pm m (Some c2) point [] scopes req.
+Proof.
+  intros Hb Ha Hs Hm. rewrite !get_claims_steps, !policy_primary. cbn [fst snd].
+  unfold by_scope_rule, always_rule, client_scopes_to_claims. now rewrite Hb, Ha, Hs, Hm.
+Qed.
+Theorem authz_idt_other_points_irrelevant pm m c1 c2 rt ts gs req ui :
+  id_token_alone rt = false ->
+  by_scope_at c1 W_id_token = by_scope_at c2 W_id_token -> always_at c1 W_id_token = always_at c2 W_id_token ->
+  c_allowed_scopes c1 = c_allowed_scopes c2 -> c_scope_map c1 = c_scope_map c2 ->
+  release_authz_idt pm m (Some c1) rt ts gs req ui = release_authz_idt pm m (Some c2) rt ts gs req ui.
+Proof.
+  intros Hrt Hb Ha Hs Hm. unfold release_authz_idt. rewrite (idt_release_point_not_alone _ Hrt).
+  cbn [fst snd idt_release_point_token_endpoint]. unfold release_tok, get_claims_tok.
+  now rewrite (get_claims_primary_frame pm m c1 c2 W_id_token _ req Hb Ha Hs Hm).
+Qed.
+Lemma assoc_remove_key {V} p q (d : list (pystr * V)) : q <> p -> assoc q (remove_key p d) = assoc q d.
+Proof.
+  intros Hq. induction d as [|[k v] r IH]; cbn; auto.
+  destruct (str_eqb p k) eqn:E.
+  - apply str_eqb_eq in E. subst k. rewrite IH. destruct (str_eqb q p) eqn:E2; auto. apply str_eqb_eq in E2. congruence.
+  - cbn. now rewrite IH.
+Qed.
+(* in particular: everything the client configured for USERINFO (add_claims.always.userinfo, add_claims.by_scope.userinfo)
+   contributes nothing to such an ID Token - a client that configures only userinfo gets the ID Token of a client without
+   add_claims *)
+Theorem authz_idt_userinfo_config_contributes_nothing pm m c rt ts gs req ui :
+  id_token_alone rt = false ->
+  release_authz_idt pm m (Some c) rt ts gs req ui = release_authz_idt pm m (Some (without_point W_userinfo c)) rt ts gs req ui.
+Proof.
+  intros Hrt. apply authz_idt_other_points_irrelevant; auto.
+  - unfold by_scope_at, without_point. cbn. destruct (c_by_scope c); auto. symmetry. apply assoc_remove_key. vm_compute. discriminate.
+  - unfold always_at, without_point. cbn. rewrite assoc_remove_key; auto. vm_compute. discriminate.
+Qed.
+(* the ID Token of the token endpoint: the same rules, whatever response type the authorization request had *)
+Theorem token_endpoint_idt_is_id_token_rules pm m cl rt ts gs req ui :
+  id_token_alone rt = false ->
+  release_authz_idt pm m cl rt ts gs req ui =
+  release_tok pm m cl (fst idt_release_point_token_endpoint) (snd idt_release_point_token_endpoint) ts gs req ui.
+Proof. intros Hrt. unfold release_authz_idt. now rewrite (idt_release_point_not_alone _ Hrt). Qed.
+
+(* response type `id_token` alone: the ID Token is the userinfo release as well - the always-add claims the client has for
+   id_token or for userinfo, and nothing of any other release point *)
+Theorem authz_idt_alone_bound pm m cl rt ts gs req ui k v :
+  id_token_alone rt = true ->
+  In (k, v) (release_authz_idt pm m cl rt (Some ts) gs req ui) ->
+  (In k (keys m.(m_base))
+   \/ In k (always_keys m.(m_always))
+   \/ (exists c, cl = Some c /\ m.(m_per_client) = true /\ (In k (always_at c W_id_token) \/ In k (always_at c W_userinfo)))
+   \/ (scope_claim pm cl ts k /\
+       exists s, In s ts /\ In s (match (match cl with Some c => c.(c_allowed_scopes) | None => None end) with
+                                  | Some a => a | None => List.map fst pm end))
+   \/ In k (keys req))
+  /\ assoc k ui = Some v /\ v <> VNone.
+Proof.
+  intros Hrt. unfold release_authz_idt. rewrite (idt_release_point_alone _ Hrt). cbn [fst snd]. intros H.
+  apply token_scope_bound in H as [[H|[H|[(c & Hc & Hp & H)|[H|H]]]] Hu]; split; auto 6.
+  right; right; left. exists c. split; auto. split; auto. now apply client_claims_always in H.
+Qed.
